@@ -1,11 +1,16 @@
 import GoawkModel.Basic
 import GoawkModel.C12
+import GoawkModel.C12Entry
 /-! Line-protocol handler for property C12.
 
 `run <flags> <existing> <args> <stdinRecs> <op>*` → one group of effects per executed operation, groups separated by `|`.
 * `<flags>`: four characters `0|1` = noExec noWrites noReads hook
 * `<existing>`, `<args>`: comma-separated hex names, `.` for the empty list (`-` is the empty name)
 * ops: `gt:<n>:<ok>` `app:<n>:<ok>` `pipe:<n>:<ok>` `gf:<n>` `gc:<n>:<ok>` `sys:<n>:<ok>` `gl` `main` `close:<n>` `ff:<n>`
+
+`exec <entry> <ctxDone> <flags> <existing> <args> <stdinRecs> <op>*` → `executeAll` through the given entry point
+(`execprogram` `execute` `ctx-background` `ctx-todo` `ctx-other`; `<ctxDone>` = `0|1`): the operations before `main` are BEGIN's,
+those after it END's; the answer is the groups as for `run`, then ` ## ` and the outcome `finished` | `failed:<code>` | `ctxfailed`.
 * effects: `stdout` `stderr` `stdin` `open:<n>:<rd|tr|ap>:<c|o>:<ok>` `exec:<n>:<ok>` `use:<n>:<kind>` `cl:<n>:<kind>` `soft` `err:<code>`
 -/
 namespace GoawkModel.Drv.C12
@@ -60,8 +65,39 @@ def showEffect : Effect → String
   | .soft => "soft"
   | .error e => "err:" ++ showErr e
 
+def parseEntry : String → Option Entry
+  | "execprogram" => some .execProgram
+  | "execute" => some .execute
+  | "ctx-background" => some .ctxBackground
+  | "ctx-todo" => some .ctxTodo
+  | "ctx-other" => some .ctxOther
+  | _ => none
+
+def showOutcome : Outcome → String
+  | .finished => "finished"
+  | .failed e => "failed:" ++ showErr e
+  | .ctxFailed => "ctxfailed"
+
+def showGroups (groups : List (List Effect)) : String :=
+  String.intercalate " | " (groups.map fun g => if g.isEmpty then "none" else String.intercalate " " (g.map showEffect))
+
+/-- the operations before the first `main` and those after it -/
+def splitMain : List IoOp → Option (List IoOp × List IoOp)
+  | [] => none
+  | .mainLoop :: rest => some ([], rest)
+  | op :: rest => (splitMain rest).map fun p => (op :: p.1, p.2)
+
 def handle (args : List String) : String :=
   match args with
+  | "exec" :: entry :: done :: flags :: existing :: operands :: recs :: ops =>
+    match parseEntry entry, parseBool done, parseFlags flags, parseList existing, parseList operands, recs.toNat?, ops.mapM parseOp with
+    | some e, some d, some f, some ex, some as, some r, some ops =>
+      match splitMain ops with
+      | some (b, en) =>
+        let res := executeAll e d f (St.init ex as r) { begin := b, hasRest := true, endOps := en }
+        "ok " ++ showGroups res.1 ++ " ## " ++ showOutcome res.2
+      | none => "bad-request"
+    | _, _, _, _, _, _, _ => "bad-request"
   | "run" :: flags :: existing :: operands :: recs :: ops =>
     match parseFlags flags, parseList existing, parseList operands, recs.toNat?, ops.mapM parseOp with
     | some f, some ex, some as, some r, some ops =>
